@@ -270,8 +270,8 @@ func c14CheckHistory(w *world, first *worldResult) string {
 		if r.Params.Local != nil {
 			kind = "srvfail"
 		}
-		if r.Params.Stop != nil {
-			kind = "ctrlc"
+		if r.Params.Stop != nil && r.StopHit {
+			kind = "ctrlc" // (a Ctrl-C that arrives after the transfer has ended stops nothing)
 		}
 		label := fmt.Sprintf("transfer %d (%s %s)", i, r.Params.Dir, kind)
 		if r.Sched != nil && len(r.Sched.Crash) > 0 {
@@ -367,6 +367,24 @@ func c14Histories(tier string) []wParams {
 		}
 	}
 	rec(nil)
+	// the same relay carrying tunnelled and in-band transfers in turn (the server cannot always open its listener)
+	tk := []wParams{
+		{Dir: "up", Tree: "small3"}, {Dir: "down", Tree: "small3"},
+		{Dir: "up", Tree: "small3", ServerNoListen: true}, {Dir: "down", Tree: "small3", ServerNoListen: true},
+		{Dir: "up", Tree: "one:R:21000", Stop: &wStop{Side: "client", Step: 150}},
+	}
+	for _, a := range tk {
+		for _, b := range tk {
+			for _, relays := range []int{1, 2} {
+				for _, final := range []wParams{{Dir: "up", Tree: "small3", ServerNoListen: true}, {Dir: "down", Tree: "small3"}} {
+					first := a
+					first.Tunnel, first.Relays, first.Probe, first.Timeout = true, relays, true, 3
+					first.Then = []wParams{b, final}
+					out = append(out, first)
+				}
+			}
+		}
+	}
 	return out
 }
 
@@ -483,7 +501,7 @@ func init() {
 		ID:    "C14",
 		Level: "exploration",
 		Rule: "(i) all 1152 client actions (binary x directory x fork x protocol 1..9 x newline x tunnel x confirm) x 6 representative server configurations and all 1728 server configurations (every option subset x bufsize x timeout x pane width x compress) x 8 representative actions through the real relay's handshake, outside tmux and (a subset) inside tmux; " +
-			"(ii) every sequence of 1..2 (quick) / 1..3 (thorough) transfers over {upload, download, refused, failed on the client, failed on the server, Ctrl-C keep, Ctrl-C delete} through one and two relay instances, each followed by a transparency probe, then a transfer that must succeed; " +
+			"(ii) every sequence of 1..2 (quick) / 1..3 (thorough) transfers over {upload, download, refused, failed on the client, failed on the server, Ctrl-C keep, Ctrl-C delete} through one and two relay instances, each followed by a transparency probe, then a transfer that must succeed; the same with tunnel connectors installed and every sequence of two transfers over {tunnelled up/down, in-band up/down (the server could not listen), Ctrl-C} before an in-band and a tunnelled final transfer; " +
 			"(iii) every cut position inside the last protocol message of a transfer on the wire the relay reads, and every set of 2 (quick) / 2..7 (thorough) read boundaries inside its first 8 bytes",
 		Assumptions: []string{"escape tables are not enumerated as server configuration: a relay never lets binary mode be negotiated without a tunnel, so no real server sends one through it",
 			"CFG equality is judged on what the client decodes (transferConfig), not on the byte form", "'refused' uses a fake zenity on PATH that reports the dialog as cancelled"},
